@@ -1,8 +1,10 @@
 package props
 
 import (
+	"fmt"
 	"math/rand/v2"
 	"regexp"
+	"strconv"
 	"strings"
 	"testing"
 
@@ -284,6 +286,29 @@ func TestC01(t *testing.T) {
 		}
 	}
 	r.Exhaustive("all strings of 1.." + string(rune('0'+maxTok)) + " tokens over the 14-token alphabet x every single cut point x {whole, eof-with-last, byte-at-a-time, byte-at-a-time with empty reads} x {Read, Connection}")
+	// (D) long streams: thousands of events, several hundred KB, whole / 4096-byte reads / random cuts
+	nd := r.N(24, 400)
+	for i := 0; i < nd; i++ {
+		if !r.Mine("D", i) {
+			continue
+		}
+		key := fw.Key("D", i)
+		rng := r.Rand("D", i)
+		in := c01GenLong(rng)
+		r.Begin(key, fmt.Sprintf("long stream of %d bytes", len(in)))
+		wr := ref.Interpret(in, ref.Opts{Adapt: true})
+		wc := ref.Interpret(in, ref.Opts{Adapt: true, Conn: true})
+		r.Eval(fw.Hash("c01D", strconv.Itoa(len(in)), in[:200]), true)
+		r.Count("long_streams", 1)
+		var cuts []int
+		for j := 0; j < 40; j++ {
+			cuts = append(cuts, 1+rng.IntN(len(in)-1))
+		}
+		for _, sg := range []segSpec{{Kind: "whole"}, {Kind: "every4096", Cuts: mon.Every(len(in), 4096)}, {Kind: "every1000", Cuts: mon.Every(len(in), 1000)}, {Kind: "random", Cuts: mon.NormCuts(cuts, len(in))}} {
+			c01Check(r, key, in, sg, "read", -1, &wr, &wc, true)
+			c01Check(r, key, in, sg, "conn", -1, &wr, &wc, true)
+		}
+	}
 	// (C) grammar-random streams under random multi-cut segmentations.
 	nc := r.N(6000, 300000)
 	for i := 0; i < nc; i++ {
@@ -293,6 +318,34 @@ func TestC01(t *testing.T) {
 			c01Input(r, fw.Key("C", i), in, rng, false, 3, i%3 == 0)
 		}
 	}
+}
+
+// c01GenLong builds a stream of thousands of events (hundreds of KB): ids only now and then (so
+// the last event ID has to survive many buffer refills), all terminator styles, comments, types.
+func c01GenLong(rng *rand.Rand) string {
+	var b strings.Builder
+	n := 1500 + rng.IntN(3000)
+	for i := 0; i < n; i++ {
+		t := c01Terms[rng.IntN(6)]
+		if len(t) > 2 || t == "\n\n" || t == "\r\r" {
+			t = "\n"
+		}
+		if i%97 == 0 {
+			b.WriteString("id: id-" + strconv.Itoa(i) + t)
+		}
+		if rng.IntN(15) == 0 {
+			b.WriteString("event: type" + strconv.Itoa(rng.IntN(4)) + t)
+		}
+		if rng.IntN(20) == 0 {
+			b.WriteString(": keep-alive" + t)
+		}
+		b.WriteString("data: event number " + strconv.Itoa(i) + " " + strings.Repeat("p", rng.IntN(120)) + t)
+		if rng.IntN(10) == 0 {
+			b.WriteString("data: second line" + t)
+		}
+		b.WriteString(t)
+	}
+	return b.String()
 }
 
 func selfcheckRef(t *testing.T) {
